@@ -2,6 +2,7 @@
 from __future__ import annotations
 
 import itertools
+from urllib.parse import unquote
 from pathlib import Path
 from typing import IO, Iterable, Type, TYPE_CHECKING
 
@@ -117,7 +118,8 @@ class TemplateWriter(IWriter):
             if self.dry_run:
                 self.total_pages += 1
             else:
-                with self.build_directory.joinpath(ob.url).open('wb') as fobj:
+                # The url is percent-encoded, the file name must not be.
+                with self.build_directory.joinpath(unquote(ob.url)).open('wb') as fobj:
                     self._writeDocsForOne(ob, fobj)
         for o in ob.contents.values():
             self._writeDocsFor(o)
